@@ -510,7 +510,22 @@ func (e *Exec) readOnlyOps(op Op) {
 		}
 	}()
 	so, spo := sub.storeOptions(*op.O)
-	st, coll, err := moss.OpenStoreCollection(roDir, so, spo)
+	var st *moss.Store
+	var coll moss.Collection
+	if simrt.Chance(0.4, "ro-two-step-open") {
+		// the two-step API: OpenStore, then Store.OpenCollection
+		st, err = moss.OpenStore(roDir, so)
+		if err == nil {
+			coll, err = st.OpenCollection(so, spo)
+			if err != nil {
+				st.Close()
+				st = nil
+			}
+		}
+		e.probe("ro-two-step-open")
+	} else {
+		st, coll, err = moss.OpenStoreCollection(roDir, so, spo)
+	}
 	e.out.Checks++
 	fail := func(class, format string, a ...interface{}) {
 		e.failD(class, map[string]string{"symptom": class, "variant": variant}, "ReadOnly open of directory variant %q: %s", variant, fmt.Sprintf(format, a...))
